@@ -33,6 +33,8 @@ type round struct {
 	commits  []commitRec                    // every commit in order (rolled-back ones included)
 
 	firstMissing string
+	reprocessed  map[string]bool // roots of blocks that were rolled back and processed again (identical block)
+	noFinalize   bool            // set during a fault window: the root to be re-requested must not get pruned
 	baseBroken   bool // an earlier request could not be served from an intact main DB: the snapshot DB contents that
 	// later checkpoints build on are not trustworthy until the next verified snapshot
 
@@ -201,6 +203,75 @@ func (ro *round) rollback() {
 	ro.op(fmt.Sprintf("rollback head=%s to %s", cm.Short(head.Root), cm.Short(prev.Root)))
 }
 
+// reprocess rolls the head back and processes the identical block again (same operations, same root), as a node
+// does when it re-processes a block after a rollback
+func (ro *round) reprocess() {
+	orig := ro.w.Head()
+	if orig.Script == nil {
+		ro.commit()
+		return
+	}
+	ro.rollback()
+	if ro.dead {
+		return
+	}
+	parent := ro.w.Head()
+	b, err := ro.w.Recommit(orig)
+	if err != nil {
+		ro.abort("rounds_aborted_commit_failed_main_db", "re-processing failed: "+err.Error())
+		return
+	}
+	reach := map[string]struct{}{}
+	if ce := cm.CheckRoot(ro.env.Gate.Raw, b, reach); ce != nil {
+		ro.abort("rounds_aborted_fresh_commit_not_readable", "re-processed block: "+ce.Error())
+		return
+	}
+	ro.nodes[string(b.Root)] = reach
+	ro.commits = append(ro.commits, commitRec{b.Height, string(b.Root), string(parent.Root)})
+	ro.reprocessed[string(b.Root)] = true
+	ro.r.Count("blocks_reprocessed_after_rollback", 1)
+	ro.op(fmt.Sprintf("re-process identical block h=%d root=%s on %s", b.Height, cm.Short(b.Root), cm.Short(parent.Root)))
+}
+
+// reprocessedClass is the witness class of an incomplete checkpoint whose holes are exactly nodes created by a block
+// that had been rolled back and processed again (same root committed twice)
+const reprocessedClass = "checkpoint-incomplete class=block-reprocessed-after-rollback"
+
+// classifyReprocessed: every node missing from the snapshot DB was created anew by a commit whose root was committed
+// more than once; with no DB at all for the root (nothing written), the checkpointed root itself must be such a root
+func (ro *round) classifyReprocessed(model *cm.Block, sdb data.DBWriteCacher) bool {
+	if sdb == nil {
+		return ro.reprocessed[string(model.Root)]
+	}
+	want := ro.nodes[string(model.Root)]
+	if want == nil {
+		return false
+	}
+	missing := 0
+	for h := range want {
+		if _, err := sdb.Get([]byte(h)); err == nil {
+			continue
+		}
+		missing++
+		ok := false
+		for _, cr := range ro.commits {
+			if !ro.reprocessed[cr.root] {
+				continue
+			}
+			_, in := ro.nodes[cr.root][h]
+			_, inParent := ro.nodes[cr.parent][h]
+			if in && !inParent {
+				ok = true
+				break
+			}
+		}
+		if !ok {
+			return false
+		}
+	}
+	return missing > 0
+}
+
 func (ro *round) willCheckpoint(b *cm.Block) bool { return ro.mod != 0 && b.Height%ro.mod == 0 }
 
 // quietStep is one chain step that issues no snapshot/checkpoint request
@@ -210,17 +281,19 @@ func (ro *round) quietStep() {
 	case x < 4:
 		ro.commit()
 	case x < 7:
-		if ro.w.CanFinalize() && !ro.willCheckpoint(ro.w.NextFinal()) {
+		if ro.w.CanFinalize() && !ro.noFinalize && !ro.willCheckpoint(ro.w.NextFinal()) {
 			b := ro.w.Finalize()
 			ro.op(fmt.Sprintf("finalize idx=%d root=%s", ro.w.FinalIdx, cm.Short(b.Root)))
 		} else {
 			ro.commit()
 		}
 	default:
-		if ro.w.CanRollback() {
-			ro.rollback()
-		} else {
+		if !ro.w.CanRollback() {
 			ro.commit()
+		} else if rng.Chance(1, 3) {
+			ro.reprocess()
+		} else {
+			ro.rollback()
 		}
 	}
 }
@@ -255,6 +328,15 @@ func (ro *round) window(profile string) {
 	} else {
 		ro.env.Gate.ArmSlow()
 	}
+	// fault phase (1 in 4 snapshot windows): exactly one read of a non-root node of the traversal fails, the snapshot
+	// goroutine gives up; once pruning is unblocked the same root is requested again and must then be complete
+	fault := kind == "snapshot" && rng.Chance(1, 4)
+	faults0 := atomic.LoadInt64(&ro.env.Gate.FaultsInjected)
+	if fault {
+		ro.env.Gate.ArmFailOnce(rng.Range(2, 7))
+		ro.noFinalize = true
+	}
+	defer func() { ro.noFinalize = false; ro.env.Gate.DisarmFail() }()
 	gated0 := atomic.LoadInt64(&ro.env.Gate.GatedGets)
 	atomic.StoreInt32(&ro.blocked, 0)
 	ro.ckptReq = nil
@@ -295,6 +377,28 @@ func (ro *round) window(profile string) {
 		ro.dead = true
 		return
 	}
+	injected := false
+	if fault {
+		ro.env.Gate.DisarmFail()
+		injected = atomic.LoadInt64(&ro.env.Gate.FaultsInjected) > faults0
+		r.Count("fault_windows", 1)
+		if injected {
+			r.Count("fault_windows_with_injected_read_fault", 1)
+		}
+		// the root must still be intact in the main DB for the second attempt (nothing was finalized meanwhile)
+		if ce := cm.TraverseRoot(ro.env.Gate.Raw, b, nil); ce != nil && verifiable {
+			verifiable = false
+			r.Count("requests_not_verified_root_already_broken_in_main_db", 1)
+		}
+		ro.env.Rec.SnapshotState(append([]byte(nil), b.Root...))
+		ro.op(fmt.Sprintf("snapshot request for root=%s repeated after the interrupted attempt (fault injected: %v)", cm.Short(b.Root), injected))
+		if !cm.WaitUnblocked(ro.env.Tsm, 300*time.Second) {
+			r.Inconclusive("repeated snapshot did not finish within 300 s")
+			ro.dead = true
+			return
+		}
+		ro.noFinalize = false
+	}
 	gated := atomic.LoadInt64(&ro.env.Gate.GatedGets) - gated0
 	r.Count("requests_"+kind, 1)
 	r.Count("window_chain_steps", k)
@@ -323,13 +427,17 @@ func (ro *round) window(profile string) {
 	}
 
 	r.Eval(1)
-	sig := fmt.Sprintf("%s %s k%d ov%v rb%v pr%v data%d q%d", kind, profile, k, overlapped > 0, rolledBack > 0, atomic.LoadInt32(&ro.blocked) > 0, nData, ro.env.Cfg.QueueSize)
+	sig := fmt.Sprintf("%s %s k%d ov%v rb%v pr%v data%d q%d f%v", kind, profile, k, overlapped > 0, rolledBack > 0, atomic.LoadInt32(&ro.blocked) > 0, nData, ro.env.Cfg.QueueSize, injected)
 	if nData == 0 {
 		r.Trivial()
 	} else {
 		r.Shape(sig)
 	}
 	key, what, extra := ro.verify(kind, model)
+	if key != "" && injected {
+		key = "snapshot-incomplete-after-interrupted-attempt"
+		what = "first attempt interrupted by one failed read, request repeated after pruning was unblocked: " + what
+	}
 	ro.executed = append(ro.executed, request{kind, string(model.Root), len(ro.commits)})
 	if key == "" {
 		if kind == "snapshot" {
@@ -360,6 +468,7 @@ func (ro *round) verify(kind string, model *cm.Block) (string, string, map[strin
 	var fail *cm.CheckErr
 	missingRoot := false
 	knownShape, nMissing := false, 0
+	reproc := false
 	attempts := 1
 	if ro.env.Cfg.SnapshotDB.Type == "LvlDBSerial" {
 		// SerialDB.putBatch swaps its write batch before the old batch reaches leveldb: a Get can fall between
@@ -376,11 +485,13 @@ func (ro *round) verify(kind string, model *cm.Block) (string, string, map[strin
 		sdb := ro.env.Tsm.GetSnapshotThatContainsHash(model.Root)
 		if sdb == nil {
 			missingRoot = true
+			reproc = kind == "checkpoint" && ro.classifyReprocessed(model, nil)
 			continue
 		}
 		fail = cm.CheckRoot(sdb, model, nil)
 		if fail != nil && fail.Kind != "mismatch" && kind == "checkpoint" {
 			knownShape, nMissing = ro.classify(model, sdb)
+			reproc = !knownShape && ro.classifyReprocessed(model, sdb)
 		}
 		sdb.DecreaseNumReferences()
 		if fail == nil {
@@ -388,6 +499,9 @@ func (ro *round) verify(kind string, model *cm.Block) (string, string, map[strin
 		}
 	}
 	extra := map[string]interface{}{"root": vk.Hex(model.Root), "kind": kind}
+	if missingRoot && reproc {
+		return reprocessedClass, fmt.Sprintf("after the checkpoint of final root %s finished, no snapshot DB contains the root; the block with this root had been rolled back and processed again", cm.Short(model.Root)), extra
+	}
 	if missingRoot {
 		return kind + "-root-missing", fmt.Sprintf("after the %s of final root %s finished (pruning unblocked), no snapshot DB contains the root", kind, cm.Short(model.Root)), extra
 	}
@@ -410,6 +524,9 @@ func (ro *round) verify(kind string, model *cm.Block) (string, string, map[strin
 	what := fmt.Sprintf("%s of final root %s is not complete in its snapshot DB alone: %s", kind, cm.Short(model.Root), fail.Error())
 	if knownShape {
 		return knownCheckpointShape, what + fmt.Sprintf(" (all %d missing nodes were in the state of an earlier executed checkpoint and absent from the state of the last snapshot)", nMissing), extra
+	}
+	if reproc {
+		return reprocessedClass, what + " (every missing node was created by a block that had been rolled back and processed again)", extra
 	}
 	cls := map[string]string{"main-missing": "main-trie-incomplete", "data-missing": "data-trie-incomplete", "mismatch": "content-mismatch"}[fail.Kind]
 	return kind + "-" + cls, what, extra
@@ -523,7 +640,7 @@ func runRound(r *vk.Run, c *vk.Case, scratch string) {
 		return
 	}
 	defer env.Close()
-	ro := &round{r: r, c: c, env: env, w: cm.NewWorld(env), mod: uint64(cfg.CheckpointModulus), nodes: map[string]map[string]struct{}{}}
+	ro := &round{r: r, c: c, env: env, w: cm.NewWorld(env), mod: uint64(cfg.CheckpointModulus), nodes: map[string]map[string]struct{}{}, reprocessed: map[string]bool{}}
 	env.Rec.OnPrune = func(root []byte, id data.TriePruningIdentifier) {
 		if env.Tsm.IsPruningBlocked() {
 			atomic.AddInt32(&ro.blocked, 1)
@@ -570,12 +687,13 @@ func runRound(r *vk.Run, c *vk.Case, scratch string) {
 func main() {
 	_ = logger.SetLogLevel("*:NONE")
 	r := vk.Start("C10")
-	r.Rule("each case is one round: a chain over 6 accounts + counter account (storage, code, removals) with 12 request windows. A window takes the block that becomes final next, issues exactly one request for its root the way the block processors do (explicit SnapshotState before updateStateStorage, or the checkpoint that updateStateStorage itself fires when height % CheckpointRoundsModulus == 0), then a mutator goroutine runs 0-5 further chain steps (commit / finalize with prune requests / rollback above the final block) concurrently with the snapshot goroutines, whose main-DB reads are held on logical tokens released per step (2/3 of the rounds) or slowed (1/3); then the harness waits for IsPruningBlocked()==false and verifies. One request outstanding at a time, final roots only, SnapshotsBufferLen 10000, MaxSnapshots 2-3. Round types by case index mod 4: mixed (snapshots + modulus checkpoints) / snapshots only / checkpoints only (modulus 1, no rotation) / mixed with monotone state (no node-hash revisit: unique slot values, no removals, code fixed after block 0) - only the first type can contain the known checkpoint shape. Two extra fixed cases replay the minimal sequential witnesses of that shape. A window is non-trivial when the state has at least one data trie; distinct = distinct (kind, gate, steps, overlapped, rollback-in-window, prunes-buffered-in-window, #data tries, queue size) tuples.")
+	r.Rule("each case is one round: a chain over 6 accounts + counter account (storage, code, removals) with 12 request windows. A window takes the block that becomes final next, issues exactly one request for its root the way the block processors do (explicit SnapshotState before updateStateStorage, or the checkpoint that updateStateStorage itself fires when height % CheckpointRoundsModulus == 0), then a mutator goroutine runs 0-5 further chain steps (commit / finalize with prune requests / rollback above the final block) concurrently with the snapshot goroutines, whose main-DB reads are held on logical tokens released per step (2/3 of the rounds) or slowed (1/3); then the harness waits for IsPruningBlocked()==false and verifies. One request outstanding at a time, final roots only, SnapshotsBufferLen 10000, MaxSnapshots 2-3. Round types by case index mod 4: mixed (snapshots + modulus checkpoints) / snapshots only / checkpoints only (modulus 1, no rotation) / mixed with monotone state (no node-hash revisit: unique slot values, no removals, code fixed after block 0) - only the first type can contain the known checkpoint shape. Two extra fixed cases replay the minimal sequential witnesses of that shape. Chain steps include re-processing: the head is rolled back and the identical block (same operations, same root) is committed again. 1 in 4 snapshot windows is a fault window: exactly one read of a non-root node of the traversal fails (the snapshot goroutine gives up), nothing is finalized meanwhile, and once pruning is unblocked SnapshotState is requested again for the same root and then verified. A window is non-trivial when the state has at least one data trie; distinct = distinct (kind, gate, steps, overlapped, rollback-in-window, prunes-buffered-in-window, #data tries, queue size) tuples.")
 	r.Assume(
 		"requests never overlap and are issued only for roots of blocks that have just become final (DESIGN C10 restrictions); overlapping requests are outside the property",
 		"a request whose root is already incomplete in the main DB at request time is not verified (pruning defects are C09's subject) and only counted; neither are the checkpoints that build on such a request, until the next verified snapshot",
 		"traversal 'using only that DB': a fresh trie over trieStorageManagerWithoutPruning(snapshot DB)",
 		"with LvlDBSerial snapshot DBs only, verification reads are retried for up to 1 s (100 ms apart) (SerialDB swaps its write batch before flushing it; stored data is persistent, a real hole stays a hole); no retry with MemoryDB",
+		"an interrupted snapshot attempt may leave a partial snapshot DB behind; the property is checked on the repeated request (key snapshot-incomplete-after-interrupted-attempt)",
 		"waiting is bounded by logical steps; the 300 s wall-clock watchdogs only ever yield INCONCLUSIVE",
 	)
 	r.MinShapes(20)
